@@ -276,6 +276,36 @@ func (r *emRun) free(rng *rand.Rand, enc *json.Encoder) {
 	r.res.Traces++
 }
 
+// longStall: the subscriber does not read at all while many events are emitted (far more than any buffer on the way
+// holds), then reads: every event, once, in the order it was emitted.
+func (r *emRun) longStall(n int) {
+	r.start()
+	defer r.stop()
+	ctx := context.Background()
+	done := make(chan struct{})
+	go func() {
+		defer close(done)
+		for i := 1; i <= n; i++ {
+			r.ee.Emit(ctx, i)
+		}
+	}()
+	select {
+	case <-done:
+	case <-time.After(10 * time.Second):
+		r.violate("emitter-loss", fmt.Sprintf("emitting %d events while the subscriber does not read does not return", n), nil, nil)
+		return
+	}
+	time.Sleep(50 * time.Millisecond)
+	for len(r.out) < n {
+		if !r.read(3 * time.Second) {
+			r.violate("emitter-loss", fmt.Sprintf("a subscriber that did not read while %d events were emitted received %d of them", n, len(r.out)), n, len(r.out))
+			return
+		}
+	}
+	r.res.Comparisons++
+	r.res.Stats["long_stalls"]++
+}
+
 func emitterCmd(args []string) int {
 	in := &EmitterInput{}
 	if len(args) < 2 || readJSON(args[0], in) != nil {
@@ -311,6 +341,10 @@ func emitterCmd(args []string) int {
 		defer f.Close()
 		enc = json.NewEncoder(f)
 		res.TraceFile = in.TraceOut
+	}
+	if in.FreeRuns > 0 {
+		r := &emRun{res: res, in: in, bid: "long-stall"}
+		r.longStall(600)
 	}
 	for i := 0; i < in.FreeRuns; i++ {
 		r := &emRun{res: res, in: in, bid: fmt.Sprintf("free-%d", i)}
